@@ -7,6 +7,8 @@
 (*   "imap"   replacement map identifier -> small image tree                  *)
 (*   "pat"    wildcard pattern of the tree (instances and non-linear cases)   *)
 (*   "patmut" pattern of the tree against a mutation of it (same shape)       *)
+(*   "patpart" pattern with a repeated wildcard against the tree in which one *)
+(*            of the two positions holds the wildcard identifier itself       *)
 (*   "plain"  nothing derived                                                 *)
 EXTENDS IRDerive
 CONSTANTS MaxNodes, Ws, IdsPer, BinOps, UnOps, Rich, Kinds
@@ -28,6 +30,7 @@ Derive == /\ aux = NoAux /\ Complete /\ UNCHANGED <<stack, nodes>>
                  [] kd = "fmap" -> Tree.k # "aff" /\ \E mp \in FreshMaps(Tree) : aux' = [kind |-> "map", e |-> Tree, map |-> mp]
                  [] kd = "imap" -> \E mp \in IdMaps(Tree) \cup SegMaps(Tree) : aux' = [kind |-> "map", e |-> Tree, map |-> mp]
                  [] kd = "pat" -> Tree.k # "aff" /\ \E pt \in Patterns(Tree) : aux' = [kind |-> "pat", e |-> Tree, pat |-> pt.pat, wild |-> pt.wild]
+                 [] kd = "patpart" -> Tree.k # "aff" /\ \E pt \in Partial(Tree) : aux' = [kind |-> "pat", e |-> pt.e, pat |-> pt.pat, wild |-> pt.wild]
                  [] kd = "patmut" -> Tree.k # "aff" /\ \E pt \in Patterns(Tree) : \E m \in Mutations(Tree) :
                         aux' = [kind |-> "pat", e |-> m, pat |-> pt.pat, wild |-> pt.wild]
 Next == Build \/ Derive
